@@ -743,8 +743,10 @@ def desugar_iterator_chains(ft, ads):
                     if not (sig[fo + 2].kind == "ident" and sig[fo + 3].text == "|"):
                         continue
                     es = _expr_start(sig, k - 1)
-                    # must be the initialiser of `let NAME: Vec<_> =`
-                    if not (es >= 6 and [u.text for u in sig[es - 6:es]] == [":", "Vec", "<", "_", ">", "="] and sig[es - 8].text == "let"):
+                    # must be the initialiser of `let NAME: Vec<_> =` or `let NAME =` (a non-Vec target then fails to type-check: exit 2)
+                    typed = es >= 8 and [u.text for u in sig[es - 6:es]] == [":", "Vec", "<", "_", ">", "="] and sig[es - 8].text == "let"
+                    untyped = es >= 3 and sig[es - 1].text == "=" and sig[es - 2].kind == "ident" and sig[es - 3].text == "let"
+                    if not (typed or untyped):
                         continue
                     cond = sig[fo + 4:fc]
                     if not cond or _has_control_flow(cond):
